@@ -111,7 +111,15 @@ def _worker(spec):
         seed = seed_for(base, i)
         rng = random.Random(seed)
         fam = rng.choices([f for f, _ in fams], [wt for _, wt in fams])[0]
-        faulthandler.dump_traceback_later(per_run_wall, exit=True)
+        for attempt in range(20):
+            try:
+                faulthandler.dump_traceback_later(per_run_wall, exit=True)
+                break
+            except RuntimeError:        # thread table of the machine momentarily full
+                time.sleep(0.5)
+        else:
+            agg.harness_errors.append('unable to start the per-run watchdog thread (20 attempts)')
+            break
         try:
             case = fam.gen(rng, tier, prop)
             res = run_case(fam, case, seed=seed)
